@@ -552,7 +552,7 @@ class CasJsonSerializer:
                 feature_name = feature.name[:-1]
 
             # Skip over 'None' features
-            value = getattr(fs, feature.name)
+            value = getattr(fs, feature.name, None)
             if value is None:
                 continue
 
